@@ -296,9 +296,64 @@ def default_conformance_pass(ctx):
             return
 
 
+def supertype_edit_pass(ctx):
+    """conformance follows the metamodel as it is now: a class that gives up its supertypes (one by one, all at once,
+    by assignment, by del) is no longer a value of references typed by them; taken back, it is again"""
+    from pyecore import ecore as E
+    from pyecore.valuecontainer import BadValueError
+    for k, how in enumerate(['remove', 'clear', 'assign-empty', 'del', 'pop', 'assign-other'] * (1 if ctx.quick() else 5)):
+        rng = common.sub_rng(ctx.seed, 'C03', 'supertype-edit', k)
+        A, B, C, H = E.EClass('A'), E.EClass('B'), E.EClass('C'), E.EClass('H')
+        B.eSuperTypes.append(A)
+        if rng.random() < .5:
+            B.eSuperTypes.append(C)
+        many = rng.random() < .5
+        H.eStructuralFeatures.append(E.EReference('r', A, upper=-1 if many else 1))
+        h0, b0 = H(), B()
+        (h0.r.append if many else (lambda v: setattr(h0, 'r', v)))(b0)       # accepted while B is an A
+        if how == 'remove':
+            B.eSuperTypes.remove(A)
+        elif how == 'clear':
+            B.eSuperTypes.clear()
+        elif how == 'assign-empty':
+            B.eSuperTypes = []
+        elif how == 'del':
+            del B.eSuperTypes
+        elif how == 'pop':
+            while len(B.eSuperTypes):
+                B.eSuperTypes.pop()
+        else:
+            B.eSuperTypes = [C]
+        ctx.evaluations += 1
+        ctx.count('supertype-edit/' + how)
+        ctx.nontriv(('supertype-edit', k))
+        h1 = H()
+        try:
+            (h1.r.append if many else (lambda v: setattr(h1, 'r', v)))(B())
+            out = 'accepted'
+        except BadValueError:
+            out = 'BadValueError'
+        except Exception as e:
+            out = 'raised ' + type(e).__name__
+        if out != 'BadValueError':
+            ctx.violate({'clause': 'not-rejected', 'path': 'supertype-edit', 'type': 'cls'},
+                        f'not-rejected: B gave up its supertype A ({how}); an instance of B offered to a reference typed A: {out}',
+                        {'supertype_edit': k, 'how': how})
+            return
+        B.eSuperTypes.append(A)
+        try:
+            (h1.r.append if many else (lambda v: setattr(h1, 'r', v)))(B())
+        except Exception as e:
+            ctx.violate({'clause': 'conforming-rejected', 'path': 'supertype-edit', 'type': 'cls'},
+                        f'conforming-rejected: B took the supertype A back (after {how}); an instance of B offered to a reference typed A: {type(e).__name__}',
+                        {'supertype_edit': k, 'how': how})
+            return
+
+
 def run(ctx):
     storecheck.run(ctx, CHECKS)
     default_conformance_pass(ctx)
+    supertype_edit_pass(ctx)
     matrix(ctx)
     opposite_typing(ctx)
     ctx.rule += ('; plus the exhaustive conformance matrix: every ecore data type, two enumerations sharing a literal name, 5 classes '
